@@ -570,6 +570,52 @@ class Body:
                 break
         return bb
 
+    # -- boolean predicates -------------------------------------------------------------
+    def bool_edges(self, local):
+        """Switches deciding on a bool held in `local` (through copies and `!`):
+        list of (switch_bb, true_target, false_target)."""
+        pol = {local: True}
+        changed = True
+        while changed:
+            changed = False
+            for bl in self.blocks:
+                for s in bl["stmts"]:
+                    if s["k"] != "assign" or s["pl"].get("p"):
+                        continue
+                    rv = s["rv"]
+                    tgt = s["pl"]["l"]
+                    if tgt in pol:
+                        continue
+                    if rv["k"] == "use" and op_local(rv["op"]) in pol:
+                        pol[tgt] = pol[op_local(rv["op"])]
+                        changed = True
+                    elif rv["k"] == "unop" and rv["uop"] == "Not" and op_local(rv["op"]) in pol:
+                        pol[tgt] = not pol[op_local(rv["op"])]
+                        changed = True
+        out = []
+        for bi, bl in enumerate(self.blocks):
+            t = bl["term"]
+            if t["k"] == "switch" and op_local(t["discr"]) in pol:
+                m = {v: b for v, b in t["targets"]}
+                f_t = m.get(0)
+                t_t = t["otherwise"] if 0 in m else None
+                if 1 in m:
+                    t_t = m[1]
+                    if f_t is None:
+                        f_t = t["otherwise"]
+                if not pol[op_local(t["discr"])]:
+                    t_t, f_t = f_t, t_t
+                out.append((bi, t_t, f_t))
+        return out
+
+    def guarded_by_call(self, bb, call, want=True):
+        """Block `bb` is reachable only through the `want` edge of a switch on call's bool result."""
+        for (sw, t_t, f_t) in self.bool_edges(call.dest["l"]):
+            tgt = t_t if want else f_t
+            if tgt is not None and self.edge_dominates(sw, tgt, bb) and self.dominates(call.bb, bb):
+                return True
+        return False
+
     # -- liveness (backward, use-based) -------------------------------------------------
     def liveness(self, drop_is_use=False):
         """live_in[bb] sets of locals (whole-local granularity)."""
